@@ -235,6 +235,22 @@ pub fn gen_graph(rng: &mut SplitMix, thorough: bool) -> GraphSpec {
     loop {
         // mostly small graphs; one run in eight a larger one (cheap as long as there
         // are few vertices: the builder's cost explodes with BFS depth, not with E)
+        // rarely a really large table (13-15 edges on few vertices)
+        if rng.chance(1, if thorough { 400 } else { 2500 }) {
+            let ne = rng.range(13, 14) as usize;
+            let nv = rng.range(2, 5) as u8;
+            let d = rng.range(1, 6) as usize;
+            let heavy = rng.chance(1, 2);
+            let es: Vec<EdgeSpec> = (0..ne)
+                .map(|i| {
+                    let (a, b) = if (i as u8) + 1 < nv { (i as u8, i as u8 + 1) } else { (rng.below(nv as u64) as u8, rng.below(nv as u64) as u8) };
+                    let w = if heavy { *rng.pick(&[20.0, 0.5, 2.0, 7.5, 1.0]) } else { d as f64 / 2.0 + *rng.pick(&[0.3, -0.2, 0.05, 1.0]) };
+                    EdgeSpec { v: (a, b), massive: rng.chance(2, 3), w: w.max(0.05).to_bits() }
+                })
+                .collect();
+            let ext = if rng.chance(1, 2) { vec![0, 1] } else { vec![0] };
+            return GraphSpec { d, edges: es, externals: ext, signature: vec![], name: String::new() };
+        }
         let big = rng.chance(1, 8);
         let (min_e, max_e) = match (thorough, big) {
             (false, false) => (1, 7),
